@@ -116,6 +116,7 @@ class Repo:
         """See engine/normalize.py: undo private renames, inline new private helpers, rewrite `a if c else b` statements."""
         from . import normalize
         inv = normalize.load_inventory()
+        normalize.unroll_constant_loops(self.modules, self.norm_log)
         normalize.desugar_ifexp(self.modules)
         if inv is not None:
             normalize.apply_renames(self.modules, normalize.plan_renames(self.modules, inv), self.norm_log)
